@@ -31,8 +31,9 @@ def run(ctx):
     ctx.exhaustive = True
     ctx.rule = ("every message sequence up to the cfg's MaxLen over the cfg's message pool of Frame.tla "
                 "(calls with int/string ids, notifications, responses with result / null / error) x every "
-                "defect of the cfg's classes (none; truncation at EVERY byte offset; one damaged frame: 11 "
-                "header classes and 9 body classes that must be rejected, 12 tolerance classes); each "
+                "defect of the cfg's classes (none; truncation at EVERY byte offset; one damaged frame: 16 "
+                "header classes (incl. Content-Length values of 10, 11, 12, 15, 19 and 20 digits) and 9 body classes "
+                "that must be rejected, 12 tolerance classes); each "
                 "stream is read three ways (whole buffer, 1 byte at a time with a counting source, seeded "
                 "chunks); distinct = defect class x damaged frame index x sequence of message kinds "
                 "(x outcome class for truncations)")
@@ -41,5 +42,7 @@ def run(ctx):
         "integer ids within +-2^53 in the main enumeration; one probe pool keeps an id above 2^53 as a lead",
         "JSON syntax itself (encoding/json) is abstracted: bodies are renderings of wire records, other bytes are 'not JSON'",
         "strings use an alphabet that needs only the mandatory JSON escapes",
-        "no Content-Length near 2^31 is tried (the reader allocates the declared size before reading)",
+        "the reader runs in a worker sub-process capped at 2 GiB of address space (RLIMIT_AS): a reader that allocates a "
+        "huge declared Content-Length before any body byte is available dies with `out of memory` and the case is "
+        "reported as fatal:<class>; Content-Length values that ARE accepted stay far below the cap",
     ]
